@@ -18,7 +18,11 @@ RULE = ("cases: (transaction class, transaction) pairs; transactions from a dete
         "seeded random transactions (1..300 inputs, 0..300 outputs, witness modes none/all-empty/some/all/first/last, empty witness "
         "items, 252..254-item stacks, amounts up to 2^64-1); spendable records with boundary-biased fields. Distinct by (class, "
         "field-shape vector) resp. (form, field classes); non-trivial when at least one field sits on a compact-size or integer-width "
-        "boundary or a witness item is empty.")
+        "boundary or a witness item is empty. Further: every two boundary conditions of different kinds in one transaction (pair sweep); "
+        "counts and lengths one below / one above the 0xffff|0x10000 step; refused calls (a value that does not fit its wire field, "
+        "a non-bytes item, truncated or malformed input, a wrong-length unspents list) placed between judged calls on the same object, "
+        "on another object and on another network's class; caller-owned bytearray / list / dict arguments; one object edited and queried "
+        "more than 2^16+100 times in one process.")
 ASSUMPTIONS = [
     "vmon/refs/txser.py is the wire format (self-tested on every run: genesis coinbase and a mainnet txid, BIP143 example, every "
     "transaction of tests/btc/data/tx_valid.json and tx_invalid.json round-trips and cites the prevouts listed next to it)",
@@ -34,6 +38,9 @@ ASSUMPTIONS = [
     "the spent-output extension is the TxOut wire forms of the spent outputs, in input order, appended to the transaction bytes; the "
     "unspents are given either as TxOut or as Spendable objects (set_unspents documents both); a transaction object that carries "
     "unspents has the same plain bytes, id and witness id as one that does not",
+    "a call the library refuses (an exception) is never judged; what is judged is every answer after it: the object the caller has put "
+    "a valid value back into, other live objects, freshly parsed bytes - all ordinary transactions of the statement's domain",
+    "bytearray arguments and fields are judged only while the class takes them (as it does today); a refusal of a bytearray is not judged",
 ]
 EXPLANATION = ("as_bin/as_hex bytes must equal the reference serialisation (BIP144 form iff some witness stack is non-empty); from_bin/"
                "from_hex/parse of reference-made bytes must give back the fields and re-serialise identically; id/hash/w_id must equal the "
@@ -59,10 +66,12 @@ def plan(tier, seed):
         shards = [{"kind": "sweep"}]
         shards += [{"kind": "txs", "n": 3000} for _ in range(11)]
         shards += [{"kind": "spendables", "n": 5000} for _ in range(4)]
+        shards += [{"kind": "long_run"}, {"kind": "pairs", "part": 0, "of": 1}]
     else:
         shards = [{"kind": "sweep"}]
         shards += [{"kind": "txs", "n": 80000} for _ in range(13)]
         shards += [{"kind": "spendables", "n": 100000} for _ in range(2)]
+        shards += [{"kind": "long_run"}, {"kind": "pairs", "part": 0, "of": 1}]
     return shards
 
 
@@ -221,12 +230,13 @@ DOMAIN_REQUIRED = (
     ["dom:%s=%#x" % (k, n) for k in ("in_script_len", "out_script_len", "witness_item_len") for n in _LEN_MARKS] +
     ["dom:spendable." + k for k in ("amount=0", "amount>=2^63", "amount=2^64-1", "script_len=0", "script_len=0xfd", "script_len>=0xffff",
                                     "block_index>=0xfd", "block_index>=0x10000", "seems_spent", "index>=2^31")] +
-    ["dom:unspents_as_TxOut", "dom:unspents_as_Spendable", "dom:unspent_amount>=2^63"])
+    ["dom:unspents_as_TxOut", "dom:unspents_as_Spendable", "dom:unspent_amount>=2^63", "dom:count_or_length_next_to_0x10000",
+     "dom:two_boundary_conditions_in_one_transaction"])
 
 
 def post_merge_requirements():
     """every region of the domain and every transaction class, whichever shard reached it"""
-    return list(DOMAIN_REQUIRED) + ["class:" + n for n in NETS]
+    return list(DOMAIN_REQUIRED) + ["class:" + n for n in NETS] + list(REFUSAL_REQUIRED) + list(SP_REFUSAL_REQUIRED) + ["long_run.more_than_2^16+100_ops_on_one_object"] + list(MUTABLE_ARGS_REQUIRED) + ["producer:" + p_ for p_ in PRODUCERS] + list(CROSS_FORM_REQUIRED)
 
 
 def _mutate_witness(d, rng):
@@ -493,7 +503,24 @@ def _apply_edit(T, tx, d, edit):
         raise ValueError(e)
 
 
-def _live_edit_history(net, T, d, rec, rng, edits=None):
+PRODUCERS = ["constructor", "from_bin", "from_hex", "parse", "from_bin(with unspents)"]
+
+
+def _produce(T, d, producer):
+    """the object for `d` as made by one of the ways the library makes transaction objects"""
+    if producer == "constructor":
+        return G.to_pycoin(T, d)
+    full = R.serialize(d)
+    if producer == "from_bin":
+        return T.from_bin(full)
+    if producer == "from_hex":
+        return T.from_hex(full.hex())
+    if producer == "parse":
+        return T.parse(io.BytesIO(full))
+    return T.from_bin(full + b"".join(R.ser_out({"value": 5 + k, "script": b"\x51"}) for k in range(len(d["ins"]))))
+
+
+def _live_edit_history(net, T, d, rec, rng, edits=None, producer="constructor"):
     """one Tx object queried, edited in place, queried again: ids and bytes must always be those of the CURRENT fields.
     edits=None draws 2..6 random edits; a list replays exactly those."""
     H = _H(net)
@@ -501,7 +528,10 @@ def _live_edit_history(net, T, d, rec, rng, edits=None):
     if len(R.serialize(d)) > 4000 or not d["ins"]:
         return
     tx0 = G.pack(G.norm(d))
-    tx = G.to_pycoin(T, d)
+    st, tx = observe(_produce, T, d, producer)
+    if st != "ok":
+        return          # a parser that refuses reference-made bytes is reported by _check_tx
+    rec.ev("producer:" + producer)
     done = []
 
     def judge():
@@ -514,7 +544,7 @@ def _live_edit_history(net, T, d, rec, rng, edits=None):
         st3, b = observe(tx.as_bin)
         st4, h = observe(tx.hash)
         hist = [e[0] for e in done]
-        case = {"kind": "edit_history", "net": net, "tx0": tx0, "edits": [list(e) for e in done], "history": hist}
+        case = {"kind": "edit_history", "net": net, "tx0": tx0, "edits": [list(e) for e in done], "history": hist, "producer": producer}
         rec.case(("edit", net, tuple(hist), want_id))
         if st3 != "ok" or b != want_bin:
             rec.violation("tx.history.bytes_stale", case, b if st3 != "ok" else b[:60], want_bin[:60])
@@ -587,6 +617,262 @@ def _rand_unspents(d, rng):
 
 
 # ---------------------------------------------------------------------------------------------
+# refused calls between judged calls (error-path state)
+#
+# A transaction object that holds a value which does not fit its wire field (amount 2^64, sequence 2^32, a str where bytes
+# belong, ...) cannot be serialised and the library refuses it - that is not judged. What is judged is every answer AFTER
+# the refusal: of the same object once the caller has put a valid value back, of other live objects of the same class and
+# of another network's class, and of freshly parsed bytes. All of them are ordinary transactions of the statement's domain.
+
+# fault name -> values that do not fit the field (None / float / str scalars, one past either end of the integer range)
+_BAD_U32 = [1 << 32, -1, None, 0.5, (1 << 32) + 7, "7"]
+_BAD_U64 = [1 << 64, -1, None, 1.5, (1 << 64) + 5, "7"]
+_BAD_BYTES = ["abc", None, 7]
+FAULTS = {
+    "out_value": _BAD_U64, "sequence": _BAD_U32, "prev_index": _BAD_U32, "lock_time": _BAD_U32, "version": _BAD_U32,
+    "witness_item": ["ab", None, 5], "witness_stack": [None, 5], "in_script": _BAD_BYTES, "out_script": _BAD_BYTES,
+    "prev_hash": [None, "h" * 32, 5], "unspent_value": _BAD_U64, "unspent_script": _BAD_BYTES, "out_object": [None, 5],
+    "in_object": [None],
+    # refusals that are calls of their own (nothing is planted in the object)
+    "set_unspents_wrong_count": [1, -1], "set_witness_bad_index": [3, 100], "unspents_from_unknown_db": ["empty", "wrong_tx"],
+    "parse_truncated": ["from_bin", "parse", "from_hex"], "parse_bad_text": ["odd", "nonhex", "empty", "bad_flag", "str_for_bytes"],
+}
+FAULT_NAMES = sorted(FAULTS)
+# calls that serialise (the refusal happens inside them)
+PROVOKE = ["as_bin", "as_hex", "w_id", "w_hash", "as_bin", "as_hex", "w_id", "check", "hash", "id", "blanked_hash", "stream",
+           "as_bin_unspents", "as_hex_unspents", "as_bin_nowitness", "repr"]
+JUDGED = ["as_bin", "as_hex", "w_id", "w_hash", "id", "hash", "as_bin_nowitness", "as_bin_unspents", "as_hex_unspents", "stream"]
+
+
+def _call(tx, name):
+    if name == "as_bin_unspents":
+        return tx.as_bin(include_unspents=True)
+    if name == "as_hex_unspents":
+        return tx.as_hex(include_unspents=True)
+    if name == "as_bin_nowitness":
+        return tx.as_bin(include_witness_data=False)
+    if name == "stream":
+        f = io.BytesIO()
+        tx.stream(f)
+        return f.getvalue()
+    if name == "repr":
+        return repr(tx)
+    return getattr(tx, name)()
+
+
+def _plant(T, tx, step):
+    """put the unfit value of `step` into the live object; returns the undo closure, or None when the step does not apply"""
+    name, k, j, bad = step["fault"], step["k"], step["j"], step["bad"]
+    if name in ("out_value", "out_script", "out_object") and not tx.txs_out:
+        return None
+    k %= len(tx.txs_in)
+    j %= max(1, len(tx.txs_out))
+    if name == "out_value":
+        o, old = tx.txs_out[j], tx.txs_out[j].coin_value
+        o.coin_value = bad
+        return lambda: setattr(o, "coin_value", old)
+    if name == "out_script":
+        o, old = tx.txs_out[j], tx.txs_out[j].script
+        o.script = bad
+        return lambda: setattr(o, "script", old)
+    if name == "out_object":
+        old = tx.txs_out[j]
+        tx.txs_out[j] = bad
+        return lambda: tx.txs_out.__setitem__(j, old)
+    if name == "in_object":
+        old = tx.txs_in[k]
+        tx.txs_in[k] = bad
+        return lambda: tx.txs_in.__setitem__(k, old)
+    if name in ("sequence", "prev_index", "in_script", "prev_hash"):
+        attr = {"sequence": "sequence", "prev_index": "previous_index", "in_script": "script", "prev_hash": "previous_hash"}[name]
+        i, old = tx.txs_in[k], getattr(tx.txs_in[k], attr)
+        setattr(i, attr, bad)
+        return lambda: setattr(i, attr, old)
+    if name in ("lock_time", "version"):
+        old = getattr(tx, name)
+        setattr(tx, name, bad)
+        return lambda: setattr(tx, name, old)
+    if name == "witness_item":
+        i, old = tx.txs_in[k], tx.txs_in[k].witness
+        items = list(old)
+        items.insert(j % (len(items) + 1), bad)
+        if len(items) == 1 or j % 3 == 0:       # at least one well-formed item goes out before the unfit one
+            items.insert(0, b"\x01\x02")
+        i.witness = tuple(items) if isinstance(old, tuple) else items
+        return lambda: setattr(i, "witness", old)
+    if name == "witness_stack":
+        i, old = tx.txs_in[k], tx.txs_in[k].witness
+        i.witness = bad
+        return lambda: setattr(i, "witness", old)
+    if name in ("unspent_value", "unspent_script"):
+        if not tx.unspents or len(tx.unspents) != len(tx.txs_in):
+            return None
+        u = tx.unspents[k]
+        attr = "coin_value" if name == "unspent_value" else "script"
+        old = getattr(u, attr)
+        setattr(u, attr, bad)
+        return lambda: setattr(u, attr, old)
+    raise ValueError(name)
+
+
+def _refused_own_call(T, tx, full, step):
+    """the refusals that are calls of their own; returns the callable"""
+    name, bad = step["fault"], step["bad"]
+    if name == "set_unspents_wrong_count":
+        n = max(0, len(tx.txs_in) + int(bad))
+        return lambda: tx.set_unspents([T.TxOut(5, b"\x51") for _ in range(n)])
+    if name == "set_witness_bad_index":
+        return lambda: tx.set_witness(len(tx.txs_in) + int(bad), [b"\x01"])
+    if name == "unspents_from_unknown_db":      # the spent outputs are looked up by id; the last input's is not there / is another transaction
+        db = {bytes(i.previous_hash): None for i in tx.txs_in[:-1]}
+        if bad == "wrong_tx":
+            db[bytes(tx.txs_in[-1].previous_hash)] = tx
+        return lambda: tx.unspents_from_db(db)
+    if name == "parse_truncated":
+        cut = 5 + step["j"] % max(1, len(full) - 5)
+        if bad == "from_bin":
+            return lambda: T.from_bin(full[:cut])
+        if bad == "parse":
+            return lambda: T.parse(io.BytesIO(full[:cut]))
+        return lambda: T.from_hex(full[:cut].hex())
+    if name == "parse_bad_text":
+        if bad == "odd":
+            return lambda: T.from_hex(full.hex()[:-1])
+        if bad == "nonhex":
+            return lambda: T.from_hex(full.hex()[:20] + "zz" + full.hex()[22:])
+        if bad == "empty":
+            return lambda: T.from_bin(b"")
+        if bad == "bad_flag":
+            return lambda: T.from_bin(full[:4] + b"\x00\x00" + full[4:])
+        return lambda: T.from_bin(full.hex())
+    raise ValueError(name)
+
+
+def _draw_refusal_steps(rng, n=None):
+    steps = []
+    for _ in range(n or rng.choice([1, 2, 2, 3])):
+        name = rng.choice(FAULT_NAMES)
+        provoke = rng.choice(PROVOKE)
+        if name.startswith("unspent_"):
+            provoke = rng.choice(["as_bin_unspents", "as_hex_unspents"])
+        elif name in ("witness_item", "witness_stack") and provoke in ("hash", "id", "as_bin_nowitness"):
+            provoke = rng.choice(["as_bin", "as_hex", "w_id", "w_hash"])
+        steps.append({"fault": name, "k": rng.randrange(64), "j": rng.randrange(4096), "bad": rng.choice(FAULTS[name]),
+                      "provoke": provoke, "order": rng.randrange(1 << 30), "again": rng.randrange(3)})
+    return steps
+
+
+def _refused_calls_between_judged(net, T, d, unspents, net2, T2, d2, unspents2, rec, steps):
+    """`steps` refused calls, each followed by every judged call on every live object in a shuffled order"""
+    import random
+    d, d2 = G.norm(d), G.norm(d2)
+    case = {"kind": "refused_interleave", "net": net, "tx": G.pack(d), "net2": net2, "tx2": G.pack(d2), "steps": steps,
+            "unspents": [{"value": u["value"], "script": G._pack_bytes(u["script"])} for u in unspents],
+            "unspents2": [{"value": u["value"], "script": G._pack_bytes(u["script"])} for u in unspents2]}
+
+    def build(T_, d_, us, via, as_sp):
+        tx = G.to_pycoin(T_, d_, via)
+        if as_sp:
+            tx.set_unspents([T_.Spendable(u["value"], u["script"], i["prev"], i["index"]) for u, i in zip(us, d_["ins"])])
+        else:
+            tx.set_unspents([T_.TxOut(u["value"], u["script"]) for u in us])
+        return tx
+
+    def expected(net_, d_, us):
+        H = _H(net_)
+        full, legacy = R.serialize(d_, True), R.serialize(d_, False)
+        ext = full + b"".join(R.ser_out(u) for u in us)
+        return {"as_bin": full, "as_hex": full, "stream": full, "as_bin_nowitness": legacy, "as_bin_unspents": ext, "as_hex_unspents": ext,
+                "w_hash": H(full), "w_id": H(full)[::-1].hex(), "hash": H(legacy), "id": H(legacy)[::-1].hex()}
+
+    k0 = steps[0]["k"] if steps else 0
+    st, objs = observe(lambda: {"victim": build(T, d, unspents, ("attr", "tuple", "set_witness")[k0 % 3], k0 % 2 == 1),
+                                "same_class": build(T, d2, unspents2, "attr", False),
+                                "other_class": build(T2, d2, unspents2, "tuple", True)})
+    if st != "ok":
+        rec.violation("tx.construct.raises", case, objs, "object")
+        return
+    want = {"victim": expected(net, d, unspents), "same_class": expected(net, d2, unspents2), "other_class": expected(net2, d2, unspents2)}
+    full = want["victim"]["as_bin"]
+
+    def judge(step_no, order_seed, refused_in):
+        calls = [(label, m) for label in ("victim", "same_class", "other_class") for m in JUDGED]
+        calls += [("parsed", "as_bin"), ("parsed", "w_id"), ("parsed_other", "as_bin")]
+        random.Random(order_seed).shuffle(calls)
+        for n_call, (label, m) in enumerate(calls):
+            rec.ev("Tx.%s(after a refused call)" % m.replace("_unspents", "(include_unspents)").replace("_nowitness", "(no witness)"))
+            if label.startswith("parsed"):
+                T_, w_ = (T, want["victim"]) if label == "parsed" else (T2, want["other_class"])
+                stp, p = observe(T_.from_bin, w_["as_bin"])
+                stc, got = observe(_call, p, m) if stp == "ok" else (stp, p)
+                exp = w_[m]
+            else:
+                stc, got = observe(_call, objs[label], m)
+                exp = want[label][m]
+            if stc == "ok" and "hex" in m:
+                got = _unhex(got) if isinstance(got, str) else None
+            if stc == "ok" and m in ("hash", "w_hash"):
+                got = bytes(got)
+            if stc != "ok" or got != exp:
+                mech = "tx.after_refused_call.%s_wrong" % ("id" if m in ("id", "hash") else "w_id" if m in ("w_id", "w_hash") else "bytes")
+                rec.violation(mech, dict(case, failed_step=step_no, on=label, position=n_call, refused_in=refused_in),
+                              got if stc != "ok" or not isinstance(got, bytes) else got[:80], exp[:80])
+                return False
+        return True
+
+    rec.case(("refusal", net, net2, tuple((s["fault"], repr(s["bad"]), s["provoke"]) for s in steps), G.shape(d)))
+    for step_no, step in enumerate(steps):
+        name = step["fault"]
+        victim = objs["victim"]
+        if name in ("set_unspents_wrong_count", "set_witness_bad_index", "unspents_from_unknown_db", "parse_truncated", "parse_bad_text"):
+            fn, undo, provoke = _refused_own_call(T, victim, full, step), None, name
+        else:
+            undo = _plant(T, victim, step)
+            if undo is None:
+                rec.ev("refusal.step_not_applicable")
+                continue
+            provoke = step["provoke"]
+            fn = lambda: _call(victim, provoke)        # noqa: E731
+        n_refused = 0
+        for _ in range(1 + step.get("again", 0)):       # the same refused call once, twice or three times in a row
+            st, r = observe(fn)
+            n_refused += st != "ok"
+        if undo is not None:
+            undo()
+        if not n_refused:
+            rec.ev("refusal.call_was_not_refused")      # the library took the value: outside the statement, nothing to say
+            if name in ("set_unspents_wrong_count", "set_witness_bad_index", "unspents_from_unknown_db"):
+                return                                  # ... and the object is now another one than the model
+            continue
+        rec.ev("refused:" + name)
+        rec.ev("refused_in:" + provoke)
+        rec.ev("judged_after_refusal")
+        if not judge(step_no, step["order"], provoke):
+            return
+
+
+REFUSAL_EVERY = 5
+
+
+def _small_tx(rng):
+    return G.rand_tx(rng, n_in=rng.choice([1, 1, 2, 3]), n_out=rng.choice([0, 1, 1, 2, 3]), max_big=0)
+
+
+def _refusal_scenario(net, order, nets, d, rec, rng, steps=None):
+    """one scenario around the transaction at hand (a small drawn one when it is large), a second transaction and a second class"""
+    if len(d["ins"]) + len(d["outs"]) > 12 or len(R.serialize(d)) > 3000:
+        d = _small_tx(rng)
+    d2 = _small_tx(rng)
+    others = [n for n in order if n != net] or [net]
+    net2 = rng.choice(others)
+    _refused_calls_between_judged(net, nets[net], d, _rand_unspents(d, rng), net2, nets[net2], d2, _rand_unspents(d2, rng), rec,
+                                  steps or _draw_refusal_steps(rng))
+
+
+REFUSAL_REQUIRED = ["refused:" + n for n in FAULT_NAMES] + ["refused_in:" + p for p in sorted(set(PROVOKE))] + ["judged_after_refusal"]
+
+
+# ---------------------------------------------------------------------------------------------
 # spendables
 
 def _sp_diff(a, b):
@@ -629,18 +915,21 @@ def _sp_regions(f):
     return out
 
 
-def _check_spendable(S, f, rec):
+def _check_spendable(S, f, rec, obj=None, case_extra=None, cross=True):
     case = {"kind": "spendable", "fields": dict(f, script=G._pack_bytes(f["script"]))}
+    if case_extra:
+        case.update(case_extra)
     want = dict(f, script=bytes(f["script"]), does_seem_spent=int(f["does_seem_spent"]))
     rec.case(("sp", _sp_shape(f)), nontrivial=(f["coin_value"] in G.AMOUNT_EDGES[2:] or f["tx_out_index"] in G.U32_EDGES[3:] or
                                                len(f["script"]) in (0xfc, 0xfd, 0xfe, 0xffff, 0x10000) or
                                                f["block_index_available"] >= 0xfc or f["block_index_spent"] >= 0xfc))
     for r in _sp_regions(f):
         rec.ev(r)
-    st, s = observe(G.spendable_to_pycoin, S, f)
+    st, s = observe(G.spendable_to_pycoin, S, f) if obj is None else ("ok", obj)
     if st != "ok":
         rec.violation("spendable.construct.raises", case, s, "object")
         return
+    produced = {}
     # text
     rec.ev("Spendable.as_text")
     st, text = observe(s.as_text)
@@ -655,6 +944,8 @@ def _check_spendable(S, f, rec):
             diff = _sp_diff(want, G.spendable_from_pycoin(s2))
             if diff:
                 rec.violation("spendable.text.roundtrip_mismatch." + diff, dict(case, text=text[:300]), G.spendable_from_pycoin(s2)[diff], want[diff])
+            else:
+                produced["from_text"] = s2
     # dict, directly and through JSON
     rec.ev("Spendable.as_dict")
     st, dd = observe(s.as_dict)
@@ -675,6 +966,8 @@ def _check_spendable(S, f, rec):
                 diff = _sp_diff(want, G.spendable_from_pycoin(s3))
                 if diff:
                     rec.violation("spendable.dict.roundtrip_mismatch." + diff, case, G.spendable_from_pycoin(s3)[diff], want[diff])
+                else:
+                    produced["from_dict"] = s3
     # binary
     rec.ev("Spendable.as_bin(as_spendable)")
     st, b = observe(s.as_bin, as_spendable=True)
@@ -690,6 +983,25 @@ def _check_spendable(S, f, rec):
             diff = _sp_diff(want, G.spendable_from_pycoin(s4))
             if diff:
                 rec.violation("spendable.bin.roundtrip_mismatch." + diff, case, G.spendable_from_pycoin(s4)[diff], want[diff])
+            else:
+                produced["from_bin"] = s4
+    # a record made by one form's parser (or from a transaction output) goes through the other forms
+    if obj is None and cross:
+        st, s5 = observe(S.from_tx_out, s, f["tx_hash"], f["tx_out_index"], f["block_index_available"])
+        if st == "ok" and not f["does_seem_spent"] and not f["block_index_spent"]:
+            produced["from_tx_out"] = s5
+        for p_name, obj_p in produced.items():
+            for c_name, enc, dec in (("text", lambda o: o.as_text(), S.from_text), ("dict", lambda o: o.as_dict(), S.from_dict),
+                                     ("bin", lambda o: o.as_bin(as_spendable=True), S.from_bin)):
+                if p_name == "from_" + c_name:
+                    continue
+                rec.ev("Spendable.%s->%s" % (p_name, c_name))
+                st, e_ = observe(enc, obj_p)
+                st2, o2 = observe(dec, e_) if st == "ok" else (st, e_)
+                st3, got = observe(G.spendable_from_pycoin, o2) if st2 == "ok" else (st2, o2)
+                if st3 != "ok" or _sp_diff(want, got):
+                    rec.violation("spendable.cross_form.%s_then_%s" % (p_name, c_name), case, got if st3 != "ok" else _sp_diff(want, got),
+                                  "fields out = fields in")
     # stream() to a file object is the same operation as as_bin
     f_ = io.BytesIO()
     rec.ev("Spendable.stream(as_spendable)")
@@ -699,12 +1011,502 @@ def _check_spendable(S, f, rec):
         rec.violation(mech, case, r, "bytes")
 
 
+SP_FAULTS = {
+    "coin_value": _BAD_U64, "tx_out_index": _BAD_U32, "block_index_available": [1 << 64, -1, None, "7", 0.5],
+    "block_index_spent": [1 << 64, -1, None, "7"], "tx_hash": [None, "h" * 32, 5], "script": _BAD_BYTES,
+    "from_text": ["", "zz/0/51/5/0/0/0", "00/x/51/5/0/0/0", "00/0/5/5/0/0/0", "00/0/51/five/0/0/0", "00/0/51/5/0/0/0/0/0"],
+    "from_dict": ["missing_key", "bad_hex", "not_a_dict"], "from_bin": ["truncated", "empty", "str_for_bytes"],
+}
+SP_FAULT_NAMES = sorted(SP_FAULTS)
+SP_PROVOKE = ["as_bin", "as_bin", "stream", "as_text", "as_dict", "as_bin_plain"]
+
+
+class _AfterRefusal:
+    """recorder view used for the round trips that follow a refused call: one mechanism key per form, whatever field shows it"""
+
+    def __init__(self, rec):
+        self._rec = rec
+
+    def __getattr__(self, name):
+        return getattr(self._rec, name)
+
+    def violation(self, mech, case, *a, **kw):
+        self._rec.violation("spendable.after_refused_call.%s_form_wrong" % mech.split(".")[1], case, *a, **kw)
+
+
+def _spendable_refusals(S, f, S2, f2, rec, steps):
+    """refused spendable calls, each followed by the round trips of the repaired record and of another class's record"""
+    st, objs = observe(lambda: (G.spendable_to_pycoin(S, f), G.spendable_to_pycoin(S2, f2)))
+    if st != "ok":
+        return      # reported by _check_spendable on the same fields
+    s, s2 = objs
+    for n_step, step in enumerate(steps):
+        name, bad, provoke = step["fault"], step["bad"], step["provoke"]
+        undo = None
+        if name == "from_text":
+            text = s.as_text()
+            arg = text.split("/")[0] + bad[2:] if bad.startswith("00/") else bad     # "00/" stands for the record's own (valid) id
+            fn = lambda: S.from_text(arg)        # noqa: E731
+        elif name == "from_dict":
+            dd = s.as_dict()
+            if bad == "missing_key":
+                dd.pop(("coin_value", "script_hex", "tx_hash_hex", "tx_out_index")[step["k"] % 4], None)
+            elif bad == "bad_hex":
+                dd["script_hex" if step["k"] % 2 else "tx_hash_hex"] = "zz"
+            else:
+                dd = None
+            fn = lambda: S.from_dict(dd)        # noqa: E731
+        elif name == "from_bin":
+            b = s.as_bin(as_spendable=True)
+            arg = b[:step["k"] % len(b)] if bad == "truncated" else b"" if bad == "empty" else b.hex()
+            fn = lambda: S.from_bin(arg)        # noqa: E731
+        else:
+            old = getattr(s, name)
+            setattr(s, name, bad)
+            undo = lambda: setattr(s, name, old)        # noqa: E731
+            if provoke == "as_bin":
+                fn = lambda: s.as_bin(as_spendable=True)        # noqa: E731
+            elif provoke == "as_bin_plain":
+                fn = s.as_bin
+            elif provoke == "stream":
+                fn = lambda: s.stream(io.BytesIO(), as_spendable=True)      # noqa: E731
+            else:
+                fn = getattr(s, provoke)
+        n_refused = 0
+        for _ in range(1 + step.get("again", 0)):
+            st, r = observe(fn)
+            n_refused += st != "ok"
+        if undo is not None:
+            undo()
+        if not n_refused:
+            rec.ev("refusal.call_was_not_refused")
+            continue
+        rec.ev("refused:spendable." + name)
+        rec.ev("spendable_judged_after_refusal")
+        extra = {"after_refused": [dict(st_) for st_ in steps[:n_step + 1]]}
+        pair = [(S, f, s), (S2, f2, s2)]
+        for S_, f_, o_ in (pair if step["order"] % 2 else pair[::-1]):
+            before = sum(rec.viol_count.values())
+            _check_spendable(S_, f_, _AfterRefusal(rec), obj=o_, case_extra=extra)
+            if sum(rec.viol_count.values()) != before:
+                return
+
+
+def _draw_spendable_steps(rng):
+    steps = []
+    for _ in range(rng.choice([1, 2, 2, 3])):
+        name = rng.choice(SP_FAULT_NAMES)
+        steps.append({"fault": name, "bad": rng.choice(SP_FAULTS[name]), "provoke": rng.choice(SP_PROVOKE), "k": rng.randrange(4096),
+                      "order": rng.randrange(1 << 30), "again": rng.randrange(3)})
+    return steps
+
+
+SP_REFUSAL_REQUIRED = ["refused:spendable." + n for n in SP_FAULT_NAMES] + ["spendable_judged_after_refusal"]
+
+
+# ---------------------------------------------------------------------------------------------
+# caller-owned mutable arguments and returned containers
+
+def _caller_owned_arguments(net, T, d, unspents, rec):
+    """bytearray / list arguments (where the class takes them today) are not modified by a call and give the same answer twice;
+    what the caller does to its own buffer afterwards does not reach an object parsed from it"""
+    d = G.norm(d)
+    H = _H(net)
+    full, legacy = R.serialize(d), R.serialize(d, False)
+    e_id, e_wid = H(legacy)[::-1].hex(), H(full)[::-1].hex()
+    case = {"kind": "caller_args", "net": net, "tx": G.pack(d),
+            "unspents": [{"value": u["value"], "script": G._pack_bytes(u["script"])} for u in unspents]}
+    rec.case(("caller_args", net, G.shape(d)))
+    want = G.norm(d)
+    # 1. parse from a bytearray
+    rec.ev("mutable_args.from_bin(bytearray)")
+    ba = bytearray(full)
+    parsed = []
+    for n_call in range(2):
+        st, t = observe(T.from_bin, ba)
+        if st != "ok":
+            rec.ev("mutable_args.bytearray_not_taken")         # the statement does not promise that a bytearray is taken
+            break
+        if bytes(ba) != full:
+            rec.violation("tx.caller_args.from_bin_modifies_bytearray", case, bytes(ba)[:80], full[:80])
+            return
+        diff = G.first_difference(want, G.from_pycoin(t))
+        if diff:
+            rec.violation("tx.caller_args.from_bin_bytearray_field_mismatch.%s.call_%d" % (diff, n_call + 1), case, diff, None)
+            return
+        parsed.append(t)
+    if parsed:
+        for k in range(len(ba)):
+            ba[k] ^= 0xff
+        del ba[len(ba) // 2:]
+        for t in parsed:
+            st, b = observe(t.as_bin)
+            st2, i_ = observe(t.id)
+            if st != "ok" or b != full or st2 != "ok" or i_ != e_id:
+                rec.violation("tx.caller_args.parsed_object_follows_callers_buffer", case, b if st != "ok" else b[:80], full[:80])
+                return
+    # 2. lists handed to the constructor, set_witness and set_unspents
+    rec.ev("mutable_args.lists")
+    st, built = observe(lambda: ([T.TxIn(i["prev"], i["index"], i["script"], i["sequence"]) for i in d["ins"]],
+                                 [T.TxOut(o["value"], o["script"]) for o in d["outs"]]))
+    if st != "ok":
+        rec.violation("tx.construct.raises", case, built, "object")
+        return
+    ins_l, outs_l = built
+    snap = (list(ins_l), list(outs_l))
+    us_l = [T.TxOut(u["value"], u["script"]) for u in unspents]
+    us_snap = list(us_l)
+    via_ctor = len(full) % 2 == 1           # the spent outputs handed to the constructor / to set_unspents
+    rec.ev("mutable_args.unspents_via_" + ("constructor" if via_ctor else "set_unspents"))
+    st, tx = observe(T, d["version"], ins_l, outs_l, d["lock_time"], us_l) if via_ctor else observe(T, d["version"], ins_l, outs_l, d["lock_time"])
+    if st != "ok":
+        rec.violation("tx.construct.raises", case, tx, "object")
+        return
+    stacks = [list(i["witness"]) for i in d["ins"]]
+    for k, w in enumerate(stacks):
+        if w:
+            st, r = observe(tx.set_witness, k, w)
+            if st != "ok":
+                rec.violation("tx.construct.raises", case, r, "object")
+                return
+    st, r = ("ok", None) if via_ctor else observe(tx.set_unspents, us_l)
+    ext = full + b"".join(R.ser_out(u) for u in unspents)
+    for n_call in range(2):
+        for name, exp in (("as_bin", full), ("as_bin_unspents", ext), ("id", e_id), ("w_id", e_wid)):
+            if name == "as_bin_unspents" and st != "ok":
+                continue
+            st_, got = observe(_call, tx, name)
+            if st_ != "ok" or got != exp:
+                rec.violation("tx.caller_args.%s_wrong.call_%d" % (name, n_call + 1), case, got if st_ != "ok" else got[:80], exp[:80])
+                return
+        same = (len(ins_l) == len(snap[0]) and all(a is b for a, b in zip(ins_l, snap[0])) and len(outs_l) == len(snap[1]) and
+                all(a is b for a, b in zip(outs_l, snap[1])) and len(us_l) == len(us_snap) and all(a is b for a, b in zip(us_l, us_snap)) and
+                stacks == [list(i["witness"]) for i in d["ins"]] and
+                [(u.coin_value, bytes(u.script)) for u in us_l] == [(u["value"], bytes(u["script"])) for u in unspents])
+        if not same:
+            rec.violation("tx.caller_args.callers_list_modified", case, None, "lists as handed in")
+            return
+    # 3. bytearray fields (outpoint hash, input script, witness items); TxOut insists on bytes already
+    rec.ev("mutable_args.bytearray_fields")
+
+    def build_ba():
+        keep = []
+        txs_in = []
+        for i in d["ins"]:
+            prev, script, wit = bytearray(i["prev"]), bytearray(i["script"]), [bytearray(w) for w in i["witness"]]
+            t_in = T.TxIn(prev, i["index"], script, i["sequence"])
+            t_in.witness = wit
+            keep.append((prev, script, wit))
+            txs_in.append(t_in)
+        return keep, T(d["version"], txs_in, [T.TxOut(o["value"], o["script"]) for o in d["outs"]], d["lock_time"])
+    st, r = observe(build_ba)
+    if st != "ok":
+        rec.ev("mutable_args.bytearray_not_taken")
+        return
+    keep, tx = r
+    for n_call in range(2):
+        got = [observe(_call, tx, name) for name in ("as_bin", "id", "w_id")]
+        if any(g[0] != "ok" for g in got):
+            rec.ev("mutable_args.bytearray_not_taken")
+            return
+        if [g[1] for g in got] != [full, e_id, e_wid]:
+            rec.violation("tx.caller_args.bytearray_fields_wrong_answer.call_%d" % (n_call + 1), case, got[0][1][:80], full[:80])
+            return
+        if [(bytes(a), bytes(b), [bytes(x) for x in c]) for a, b, c in keep] != [(i["prev"], i["script"], i["witness"]) for i in want["ins"]]:
+            rec.violation("tx.caller_args.bytearray_fields_modified", case, None, "fields as handed in")
+            return
+
+
+def _returned_containers(S, f, rec):
+    """Spendable.from_dict leaves the caller's dict alone; a dict returned by as_dict and then edited by the caller changes nothing"""
+    case = {"kind": "spendable_containers", "fields": dict(f, script=G._pack_bytes(f["script"]))}
+    want = dict(f, script=bytes(f["script"]), does_seem_spent=int(f["does_seem_spent"]))
+    st, s = observe(G.spendable_to_pycoin, S, f)
+    if st != "ok":
+        return
+    rec.ev("mutable_args.spendable_dicts")
+    st, first = observe(lambda: (s.as_dict(), s.as_text(), s.as_bin(as_spendable=True)))
+    if st != "ok":
+        return              # reported by _check_spendable
+    dd, text, blob = first
+    arg = dict(dd)
+    for n_call in range(2):
+        st, s2 = observe(S.from_dict, arg)
+        if st != "ok" or _sp_diff(want, G.spendable_from_pycoin(s2)):
+            rec.violation("spendable.caller_args.from_dict_wrong.call_%d" % (n_call + 1), case, s2 if st != "ok" else _sp_diff(want, G.spendable_from_pycoin(s2)), None)
+            return
+        if arg != dd:
+            rec.violation("spendable.caller_args.from_dict_modifies_dict", case, sorted(arg), sorted(dd))
+            return
+    keep = dict(dd)
+    for k_ in list(dd):
+        dd[k_] = 0 if isinstance(dd[k_], int) else "00"
+    dd.pop("coin_value", None)
+    arg["coin_value"] = 0
+    st, again = observe(lambda: (s.as_dict(), s.as_text(), s.as_bin(as_spendable=True)))
+    if st != "ok" or again != (keep, text, blob):
+        rec.violation("spendable.caller_args.edited_returned_dict_changes_answers", case, again if st != "ok" else None, "same answers")
+        return
+    if _sp_diff(want, G.spendable_from_pycoin(s2)):
+        rec.violation("spendable.caller_args.parsed_record_follows_callers_dict", case, _sp_diff(want, G.spendable_from_pycoin(s2)), None)
+
+
+MUTABLE_ARGS_REQUIRED = ["mutable_args.from_bin(bytearray)", "mutable_args.lists", "mutable_args.bytearray_fields", "mutable_args.spendable_dicts",
+                         "mutable_args.unspents_via_constructor", "mutable_args.unspents_via_set_unspents"]
+CROSS_FORM_REQUIRED = ["Spendable.from_%s->%s" % (p_, c_) for p_ in ("text", "dict", "bin", "tx_out") for c_ in ("text", "dict", "bin") if p_ != c_]
+
+
+# ---------------------------------------------------------------------------------------------
+# the N-th operation: one object, one process, more than 2^16 + 100 judged operations
+
+LONG_RUN_OPS = {"quick": (1 << 16) + 160, "thorough": (1 << 17) + 160}
+
+
+def _p32(v):
+    return v.to_bytes(4, "little")
+
+
+def _long_run(nets, rec, n_ops, salt=0, stop_after=None):
+    """ONE transaction object (BTC class) and ONE spendable record are edited and queried n_ops times; every answer is compared with a
+    reference assembled from cached pieces (only the piece an edit touches is rebuilt). The bytes are also parsed each time, so the
+    parser and every freshly made object see as many uses. The piecewise reference is itself compared with refs/txser every 1024 ops."""
+    T, L = nets["BTC"], nets["LTC"]
+    H = R.dsha
+    h = [bytes([k + 1]) * 32 for k in range(3)]
+    d = {"version": 2, "lock_time": 0,
+         "ins": [{"prev": h[0], "index": 0, "script": b"", "sequence": 0xffffffff, "witness": [b"", b"\x30" * 71, b"\x02" * 33]},
+                 {"prev": h[1], "index": 7, "script": b"\x51\x52", "sequence": 0xfffffffe, "witness": []}],
+         "outs": [{"value": 0, "script": b"\x00\x14" + b"\x11" * 20}, {"value": 5000, "script": b"\x76\xa9\x14" + b"\x22" * 20 + b"\x88\xac"}]}
+    us = [{"value": 1 << 63, "script": b"\x00\x14" + b"\x33" * 20}, {"value": 9, "script": b"\x51"}]
+    tx = G.to_pycoin(T, d, "attr")
+    tx.set_unspents([T.TxOut(u["value"], u["script"]) for u in us])
+    spf = {"coin_value": 5000, "script": b"\x76\xa9", "tx_hash": h[2], "tx_out_index": 0, "block_index_available": 3,
+           "does_seem_spent": 0, "block_index_spent": 0}
+    sp = G.spendable_to_pycoin(T.Spendable, spf)
+    # cached pieces of the wire form
+    in0 = R.ser_in(d["ins"][0])
+    in1_head = R.ser_in(d["ins"][1])[:-4]
+    outs_head = R.csize(2) + R.ser_out(d["outs"][0])
+    out1_tail = R.varstr(d["outs"][1]["script"])
+    wit1 = R.csize(0)
+    ext_tail = b"".join(R.ser_out(u) for u in us)
+
+    def wit0():
+        return R.csize(len(d["ins"][0]["witness"])) + b"".join(R.varstr(w) for w in d["ins"][0]["witness"])
+    w0 = wit0()
+    case = {"kind": "long_run", "salt": salt}
+    mul = 2654435761 + 2 * salt
+
+    def bad(what, k, got, exp):
+        rec.violation("tx.long_run.%s_wrong.%s" % (what, "from_op_65535_on" if k >= 65535 else "before_op_65535"),
+                      dict(case, op_index=k, edit="lock_time version out_value sequence".split()[k % 4]),
+                      got[:80] if isinstance(got, (bytes, str)) else got, exp[:80] if isinstance(exp, (bytes, str)) else exp)
+        return k
+
+    for k in range(n_ops):
+        r = (k * mul + salt) & 0xffffffffffffffff
+        e = k % 4
+        if e == 0:
+            d["lock_time"] = tx.lock_time = r & 0xffffffff
+        elif e == 1:
+            d["version"] = tx.version = (r >> 7) & 0xffffffff
+        elif e == 2:
+            d["outs"][1]["value"] = tx.txs_out[1].coin_value = r if k % 3 else r >> 40
+        else:
+            d["ins"][1]["sequence"] = tx.txs_in[1].sequence = (r >> 13) & 0xffffffff
+        if k % 16 == 5:
+            item = r.to_bytes(8, "little")[:k % 9]
+            d["ins"][0]["witness"][k % 3] = item
+            tx.txs_in[0].witness[k % 3] = item
+            w0 = wit0()
+        body = R.csize(2) + in0 + in1_head + _p32(d["ins"][1]["sequence"]) + outs_head + d["outs"][1]["value"].to_bytes(8, "little") + out1_tail
+        ver, lock = _p32(d["version"]), _p32(d["lock_time"])
+        full = ver + b"\x00\x01" + body + w0 + wit1 + lock
+        legacy = ver + body + lock
+        e_id, e_wid = H(legacy)[::-1].hex(), H(full)[::-1].hex()
+        if k % 1024 == 0:
+            if full != R.serialize(d) or legacy != R.serialize(d, False):
+                rec.ev("inconclusive:long_run_piecewise_reference_disagrees_with_txser")
+                rec.note("long run: the piecewise reference and refs/txser disagree at op %d" % k)
+                return
+        rec.ev("long_run.op")
+        st, b = observe(tx.as_bin)
+        if st != "ok" or b != full:
+            return bad("as_bin", k, b, full)
+        st, i_ = observe(tx.id)
+        if st != "ok" or i_ != e_id:
+            return bad("id", k, i_, e_id)
+        st, w_ = observe(tx.w_id)
+        if st != "ok" or w_ != e_wid:
+            return bad("w_id", k, w_, e_wid)
+        if k % 4 == 1:
+            st, hx = observe(tx.as_hex)
+            if st != "ok" or not isinstance(hx, str) or _unhex(hx) != full:
+                return bad("as_hex", k, hx, full.hex())
+            st, bu = observe(tx.as_bin, include_unspents=True)
+            if st != "ok" or bu != full + ext_tail:
+                return bad("as_bin_unspents", k, bu, full + ext_tail)
+        # the bytes parsed back: a fresh object every time, the parser used as often as the serialiser
+        for cls, every in ((T, 1), (L, 4)):
+            if k % every:
+                continue
+            st, p_ = observe(cls.from_bin, full)
+            if st != "ok":
+                return bad("from_bin", k, p_, "transaction")
+            st, got = observe(lambda: (p_.version, p_.lock_time, p_.txs_out[1].coin_value, p_.txs_in[1].sequence, len(p_.txs_in), len(p_.txs_out),
+                                       [bytes(x) for x in p_.txs_in[0].witness], len(p_.txs_in[1].witness)))
+            exp = (d["version"], d["lock_time"], d["outs"][1]["value"], d["ins"][1]["sequence"], 2, 2, d["ins"][0]["witness"], 0)
+            if st != "ok" or got != exp:
+                return bad("from_bin_fields", k, got, exp)
+            st, b2 = observe(p_.as_bin)
+            if st != "ok" or b2 != full:
+                return bad("reserialise", k, b2, full)
+            st, i2 = observe(p_.id)
+            st2, w2 = observe(p_.w_id)
+            if st != "ok" or st2 != "ok" or i2 != e_id or w2 != e_wid:
+                return bad("parsed_ids", k, [i2, w2], [e_id, e_wid])
+        # the spendable record
+        spf["tx_out_index"] = sp.tx_out_index = r & 0xffffffff
+        spf["coin_value"] = sp.coin_value = (r * 3) & 0xffffffffffffffff
+        spf["block_index_available"] = sp.block_index_available = k
+        want = dict(spf, script=bytes(spf["script"]))
+        for form, out_f, in_f in (("bin", lambda: sp.as_bin(as_spendable=True), T.Spendable.from_bin), ("text", sp.as_text, T.Spendable.from_text),
+                                  ("dict", sp.as_dict, T.Spendable.from_dict))[:3 if k % 4 == 0 else 1]:
+            st, enc = observe(out_f)
+            st2, s2 = observe(in_f, enc) if st == "ok" else (st, enc)
+            st3, got = observe(G.spendable_from_pycoin, s2) if st2 == "ok" else (st2, s2)
+            if st3 != "ok" or _sp_diff(want, got):
+                return bad("spendable_%s_roundtrip" % form, k, got if st3 != "ok" else _sp_diff(want, got), "fields out = fields in")
+        if stop_after is not None and k >= stop_after:
+            break
+    rec.case(("long_run", n_ops, salt))
+    if k + 1 >= (1 << 16) + 100:
+        rec.ev("long_run.more_than_2^16+100_ops_on_one_object")
+    return None
+
+
 def _huge_count_sweep():
     yield "n_in=0x10000", G.simple_tx(n_in=0x10000)
     yield "n_out=0x10000", G.simple_tx(n_out=0x10000)
     yield "n_witness_items=0x10000", G.simple_tx(witness=[b""] * 0xffff + [b"\x01"])
     t = G.simple_tx(witness=[b"\x07" * 0x10001])
     yield "witness_item_len=0x10001", t
+
+
+def _pair_dimensions():
+    """(dimension, label, edit) triples; the edits compose in this order on G.simple_tx() (counts first, then single fields)"""
+    def n_in(n):
+        def f(t):
+            t["ins"] = G.simple_tx(n_in=n)["ins"]
+        return f
+
+    def n_out(n):
+        def f(t):
+            t["outs"] = G.simple_tx(n_out=n, value=3)["outs"]
+        return f
+
+    def in_field(k, name, v):
+        def f(t):
+            t["ins"][k][name] = v
+        return f
+
+    def out_field(name, v):
+        def f(t):
+            if t["outs"]:
+                t["outs"][-1][name] = v
+        return f
+
+    def wit(k, items, append=False):
+        def f(t):
+            t["ins"][k]["witness"] = (t["ins"][k]["witness"] if append else []) + list(items)
+        return f
+
+    def top(name, v):
+        def f(t):
+            t[name] = v
+        return f
+    dims = []
+    dims += [("n_in", "n_in=%#x" % n, n_in(n)) for n in (2, 0xfc, 0xfd)]
+    dims += [("n_out", "n_out=%#x" % n, n_out(n)) for n in (0, 0xfc, 0xfd)]
+    dims += [("in_script_len", "in_script_len=%#x" % n, in_field(-1, "script", b"\x51" * n)) for n in (0xfc, 0xfd, 0xffff, 0x10000)]
+    dims += [("out_script_len", "out_script_len=%#x" % n, out_field("script", b"\x52" * n)) for n in (0xfc, 0xfd, 0xffff, 0x10000)]
+    dims += [("witness_items", "witness_items=%#x" % n, wit(0, [bytes([k & 1]) * (k % 2) for k in range(n)])) for n in (0xfc, 0xfd)]
+    dims += [("witness_where", "witness_on_last_input_only", wit(-1, [b"\x01"])), ("witness_where", "witness_of_empty_items_only", wit(0, [b"", b""]))]
+    dims += [("witness_item_len", "witness_item_len=%#x" % n, wit(0, [b"\x07" * n], append=True)) for n in (0, 0xfc, 0xfd, 0xffff, 0x10000)]
+    dims += [("amount", "amount=%d" % v, out_field("value", v)) for v in (0, 1 << 63, (1 << 64) - 1)]
+    dims += [("version", "version=%#x" % v, top("version", v)) for v in (0, 0x80000000, 0xffffffff)]
+    dims += [("lock_time", "lock_time=%#x" % v, top("lock_time", v)) for v in (0x80000000, 0xffffffff)]
+    dims += [("sequence", "sequence=%#x" % v, in_field(-1, "sequence", v)) for v in (0, 0x80000000)]
+    dims += [("outpoint", "null_outpoint_first", lambda t: t["ins"][0].update(prev=G.NULL_HASH, index=G.NULL_INDEX)),
+             ("outpoint", "null_outpoint_last", lambda t: t["ins"][-1].update(prev=G.NULL_HASH, index=G.NULL_INDEX)),
+             ("outpoint", "index=0xffffffff", in_field(0, "index", 0xffffffff))]
+    return dims
+
+
+def _pair_sweep():
+    """every two boundary conditions of different kinds in ONE transaction"""
+    dims = _pair_dimensions()
+    for a in range(len(dims)):
+        for b in range(a + 1, len(dims)):
+            if dims[a][0] == dims[b][0]:
+                continue
+            t = G.simple_tx()
+            dims[a][2](t)
+            dims[b][2](t)
+            yield dims[a][1] + "," + dims[b][1], t
+
+
+def _check_counts(net, T, d, rec, build):
+    """the 65535 / 65537-element cases, at a cost that fits: serialiser once and id (build=True), parser once and its bytes back"""
+    case = {"kind": "tx", "net": net, "tx": G.pack(d), "via": "attr"}
+    full = R.serialize(d, True)
+    rec.case((net, G.shape(d)), nontrivial=True)
+    for r in _regions(d):
+        rec.ev(r)
+    if build:
+        st, tx = observe(G.to_pycoin, T, d, "attr")
+        if st != "ok":
+            rec.violation("tx.construct.raises", case, tx, "object")
+            return
+        rec.ev("Tx.as_bin")
+        st, b = observe(tx.as_bin)
+        if st != "ok":
+            rec.violation("tx.as_bin.raises", case, b, "bytes")
+        elif b != full:
+            rec.violation("tx.as_bin.length_mismatch" if len(b) != len(full) else "tx.as_bin.bytes_mismatch", case, b[:80], full[:80],
+                          detail={"len_observed": len(b), "len_expected": len(full)})
+        rec.ev("Tx.id")
+        e_id = _H(net)(R.serialize(d, False))[::-1].hex()
+        st, i_ = observe(tx.id)
+        if st != "ok" or i_ != e_id:
+            rec.violation("tx.id.mismatch", dict(case, on="built"), i_, e_id)
+    rec.ev("Tx.from_bin")
+    st, t2 = observe(T.from_bin, full)
+    if st != "ok":
+        rec.violation("tx.from_bin.raises", case, t2, "transaction")
+        return
+    diff = G.first_difference(G.norm(d), G.from_pycoin(t2))
+    if diff:
+        rec.violation("tx.from_bin.field_mismatch.%s" % diff, case, diff, "fields equal to the serialised transaction")
+        return
+    rec.ev("Tx.reserialise")
+    st, b2 = observe(t2.as_bin)
+    if st != "ok" or b2 != full:
+        rec.violation("tx.reserialise.mismatch", case, b2 if st != "ok" else b2[:80], full[:80])
+
+
+def _huge_count_neighbours():
+    """one below and one above the 0xffff/0x10000 step of every count, and one above it for every length"""
+    for n in (0xffff, 0x10001):
+        yield "n_in=%#x" % n, G.simple_tx(n_in=n)
+        yield "n_out=%#x" % n, G.simple_tx(n_out=n)
+    for n in (0xfffe, 0xffff, 0x10001):
+        yield "n_witness_items=%#x" % n, G.simple_tx(witness=[b""] * (n - 1) + [b"\x01"])
+    yield "in_script_len=0x10001", G.simple_tx(script_len=0x10001)
+    yield "out_script_len=0x10001", G.simple_tx(out_script_len=0x10001)
+    t = G.simple_tx(n_in=2, witness=[b"\x07" * 0xffff])
+    t["ins"][1]["witness"] = [b"", b"\x08" * 0x10001]
+    yield "witness_item_len=0xffff+0x10001", t
 
 
 def _spendable_sweep():
@@ -731,7 +1533,9 @@ def _spendable_sweep():
 def run_shard(spec, rec):
     nets = _nets(rec)
     rng = shard_rng(spec["seed"], PROPERTY, spec["tier"], spec["shard"])
-    if spec["kind"] == "spendables":
+    if spec["kind"] == "long_run":
+        pass
+    elif spec["kind"] == "spendables":
         rec.require("Spendable.as_text", "Spendable.from_text", "Spendable.as_dict", "Spendable.from_dict", "Spendable.from_bin",
                     "Spendable.as_bin(as_spendable)")
     else:
@@ -750,6 +1554,10 @@ def run_shard(spec, rec):
         for label, d in _huge_count_sweep():
             for net in ("BTC", "LTC"):
                 _check_tx(net, nets[net], d, rec, rng, via="attr", light=True)
+        for label, d in _huge_count_neighbours():
+            for net in ("BTC", "LTC"):
+                _check_counts(net, nets[net], d, rec, build=(net == "BTC"))
+                rec.ev("dom:count_or_length_next_to_0x10000")
         rec.sample({"class": "BTC", "sweep_label": "in_script_len=0xfd", "txid": R.txid_hex(G.simple_tx(script_len=0xfd))})
         S = nets["BTC"].Spendable
         for f in _spendable_sweep():
@@ -757,27 +1565,58 @@ def run_shard(spec, rec):
         rec.require("Spendable.as_text")
         return
     if spec["kind"] == "txs":
+        rng2 = shard_rng(spec["seed"], PROPERTY, spec["tier"], spec["shard"], salt="refusals")     # own stream: the main one is as before
+        rec.require("judged_after_refusal", "mutable_args.from_bin(bytearray)", "mutable_args.lists", "mutable_args.bytearray_fields")
         for i in range(spec["n"]):
             net = order[i % len(order)]
             d = G.rand_tx(rng)
+            if i % REFUSAL_EVERY == 2:
+                _refusal_scenario(net, order, nets, d, rec, rng2)
+            if i % 12 == 3:
+                dc = d if len(d["ins"]) + len(d["outs"]) <= 40 and len(R.serialize(d)) <= 5000 else _small_tx(rng2)
+                _caller_owned_arguments(net, nets[net], dc, _rand_unspents(dc, rng2), rec)
             via = ("attr", "attr", "set_witness", "tuple")[rng.randrange(4)]
             u = _rand_unspents(d, rng) if rng.random() < 0.4 else None
             _check_tx(net, nets[net], d, rec, rng, via=via, unspents=u, unspents_as="spendable" if i % 3 == 1 else "txout")
             if i == 0:
                 rec.require("Tx.id(after in-place edit)", "inplace_container_history")
             if i % 3 == 0:
-                _live_edit_history(net, nets[net], d, rec, rng)
+                _live_edit_history(net, nets[net], d, rec, rng, producer=PRODUCERS[(i // 3) % len(PRODUCERS)])
             if i % 50 == 7:
                 _inplace_container_history(net, nets[net], rec, rng)
             if i < 40 and len(rec.samples) < 2 and len(R.serialize(d)) < 300 and R.has_witness(d):
                 rec.sample({"class": net, "tx": G.pack(d), "txid": _H(net)(R.serialize(d, False))[::-1].hex(),
                             "wtxid": _H(net)(R.serialize(d))[::-1].hex(), "wire": R.serialize(d)})
         return
+    if spec["kind"] == "pairs":
+        rec.require("dom:two_boundary_conditions_in_one_transaction")
+        names = list(nets)
+        for n_label, (label, d) in enumerate(_pair_sweep()):
+            if n_label % spec["of"] != spec["part"]:
+                continue
+            big = len(d["ins"]) + len(d["outs"]) > 100
+            for k, net in enumerate((names[n_label % len(names)], ("BTC", "LTC")[n_label % 2])):
+                u = _rand_unspents(d, rng) if not big or k == 0 else None
+                _check_tx(net, nets[net], d, rec, rng, via=("attr", "set_witness", "tuple")[(n_label + k) % 3], unspents=u, light=big and k == 1,
+                          unspents_as=("txout", "spendable")[(n_label + k) % 2])
+            rec.ev("dom:two_boundary_conditions_in_one_transaction")
+        return
+    if spec["kind"] == "long_run":
+        rec.require("long_run.more_than_2^16+100_ops_on_one_object")
+        _long_run(nets, rec, LONG_RUN_OPS["thorough" if spec["tier"] == "thorough" else "quick"], salt=rng.randrange(1 << 20))
+        return
     if spec["kind"] == "spendables":
         classes = [nets[n].Spendable for n in order]
+        rng2 = shard_rng(spec["seed"], PROPERTY, spec["tier"], spec["shard"], salt="refusals")
+        rec.require("spendable_judged_after_refusal", "mutable_args.spendable_dicts")
         for i in range(spec["n"]):
             f = G.rand_spendable(rng)
             _check_spendable(classes[i % len(classes)], f, rec)
+            if i % 8 == 3:
+                _returned_containers(classes[i % len(classes)], f, rec)
+            if i % 4 == 1:
+                _spendable_refusals(classes[i % len(classes)], f, classes[(i + 1 + rng2.randrange(len(classes) - 1 or 1)) % len(classes)],
+                                    G.rand_spendable(rng2), rec, _draw_spendable_steps(rng2))
             if i == 0:
                 rec.sample({"spendable": dict(f)})
         return
@@ -787,12 +1626,18 @@ def run_shard(spec, rec):
 def replay_case(case, rec):
     nets = _nets(rec)
     rng = shard_rng(0, PROPERTY, "replay", 0)
-    if case.get("kind") == "spendable":
+    if case.get("kind") in ("spendable", "spendable_containers"):
         f = dict(case["fields"])
         f["script"] = G._unpack_bytes(f["script"])
         f["tx_hash"] = G._unpack_bytes(f["tx_hash"])
         for k in ("coin_value", "tx_out_index", "block_index_available", "does_seem_spent", "block_index_spent"):
             f[k] = int(f[k])
+        if case.get("kind") == "spendable_containers":
+            _returned_containers(nets["BTC"].Spendable, f, rec)
+            return
+        if case.get("after_refused"):
+            _spendable_refusals(nets["BTC"].Spendable, f, nets["LTC"].Spendable, f, rec, [dict(s_) for s_ in case["after_refused"]])
+            return
         _check_spendable(nets["BTC"].Spendable, f, rec)
         return
     net = case.get("net", "BTC")
@@ -804,7 +1649,20 @@ def replay_case(case, rec):
             elif e == "witness":
                 v = [G._unpack_bytes(x) for x in (v or [])]
             edits.append([e, int(k), int(j), v])
-        _live_edit_history(net, nets[net], G.unpack(case["tx0"]), rec, rng, edits=edits)
+        _live_edit_history(net, nets[net], G.unpack(case["tx0"]), rec, rng, edits=edits, producer=case.get("producer", "constructor"))
+        return
+    if case.get("kind") == "caller_args":
+        us = [{"value": int(x["value"]), "script": G._unpack_bytes(x["script"])} for x in case.get("unspents") or []]
+        _caller_owned_arguments(net, nets[net], G.unpack(case["tx"]), us, rec)
+        return
+    if case.get("kind") == "long_run":
+        _long_run(nets, rec, int(case.get("op_index", 0)) + 8, salt=int(case.get("salt", 0)))
+        return
+    if case.get("kind") == "refused_interleave":
+        us = [[{"value": int(x["value"]), "script": G._unpack_bytes(x["script"])} for x in case.get(k) or []] for k in ("unspents", "unspents2")]
+        net2 = case.get("net2", net)
+        _refused_calls_between_judged(net, nets[net], G.unpack(case["tx"]), us[0], net2, nets[net2], G.unpack(case["tx2"]), us[1], rec,
+                                      [dict(s_) for s_ in case["steps"]])
         return
     if case.get("kind") == "inplace_container":
         _inplace_container_history(net, nets[net], rec, rng, item=G._unpack_bytes(case["item"]))
